@@ -1,4 +1,4 @@
-"""R-2.6 (property C02): an assignment anywhere in the condition of if / while is reported, wherever the condition is broken
+"""R-2.7 (property C02): an assignment anywhere in the condition of if / while is reported, wherever the condition is broken
 into lines.
 
 C02's edit "== replaced by =" can fall on any operator of a condition, and a conforming condition may continue on further
@@ -33,7 +33,7 @@ HEADS = {"if": ["IF", "SPACE"], "while": ["WHILE", "SPACE"], "else if": ["ELSE",
 
 
 def rule_condition_scan(run, prog):
-    run.rule("R-2.6", "the check that emits ASSIGN_IN_CONTROL, interpreted on stub if / while / else-if statements whose "
+    run.rule("R-2.7", "the check that emits ASSIGN_IN_CONTROL, interpreted on stub if / while / else-if statements whose "
              "condition spans one to three lines (with nested parentheses) and in which each comparison in turn is replaced by "
              "each assignment operator of the lexer's table, reports ASSIGN_IN_CONTROL for every placement and never for the "
              "unedited condition", floor=1)
@@ -47,7 +47,7 @@ def rule_condition_scan(run, prog):
                      if s.fn.cls is not None and isinstance(s.code_expr, ast.Constant) and s.code_expr.value == "ASSIGN_IN_CONTROL"
                      and prog.is_sub(s.fn.cls.name, "Rule")})
     if not owners:
-        run.note("R-2.6: no rule emits ASSIGN_IN_CONTROL by a literal code in this tree (R-2.2 decides whether it is emitted at all)")
+        run.note("R-2.7: no rule emits ASSIGN_IN_CONTROL by a literal code in this tree (R-2.2 decides whether it is emitted at all)")
         return
 
     def emitted(cname, toks) -> List[str]:
@@ -79,7 +79,7 @@ def rule_condition_scan(run, prog):
                                 missed = (hname, tname, k, line)
         except Unsupported as e:
             raise Undecided(f"{cname}.run is outside the evaluable subset: {e}")
-        run.ob("R-2.6", f"{m.key}::covers-the-condition", missed is None and spurious is None,
+        run.ob("R-2.7", f"{m.key}::covers-the-condition", missed is None and spurious is None,
                (f"in an `{missed[0]}` whose condition is written on {missed[1]}, the operator {missed[2]} on line {missed[3]} of the "
                 f"condition is not reported: the scan stops before the closing parenthesis and the edit `==` -> `=` passes as OK"
                 if missed else f"ASSIGN_IN_CONTROL is reported for a condition without any assignment (`{spurious[0]}`, {spurious[1]})"
